@@ -1,6 +1,6 @@
 #!/bin/sh
 # tools/try_mutant.sh <patch.diff> <Cxx> [Cyy ...]  -- apply a seeded change to /repo, run quick checks, undo it
-patch="$1"; shift
+patch="$(readlink -f "$1")"; shift
 cd /repo || exit 2
 if ! git apply --check "$patch" 2>/dev/null; then
   if ! git apply -3 --check "$patch" 2>/dev/null; then echo "patch does not apply"; exit 2; fi
